@@ -73,6 +73,13 @@ def _claims(ctx):
     ctx.ob("R-1", "claim-key-type", md.label_decoder == "<%s as common::AsCborValue>::from_cbor_value" % CLAIM_KEY_TYPE,
            "claim keys are normalised by %s (registered, private-use or text)" % CLAIM_KEY_TYPE, where=fn.span, detail={"found": md.label_decoder})
     by_label = check_dispatch(ctx, md, CLAIMS, "cwt::ClaimsSet")
+    # accepted "iff ..." is stated for CBOR items reaching the decoder through the byte-level API as well: the one parser entry
+    # hands back exactly the parsed item (C13 R-1's recogniser; a read_to_value that unwraps a tag changes the accepted set)
+    from rules import c13 as _c13
+    _c13.check_read_to_value(ctx.under("R-1", "parser-entry"), "R-1")
+    from rules import structs_common as _S
+    _S.check_derived_impls(ctx, "R-1", {"core::default::Default"}, only_structs=True)
+    _S.check_derived_impls(ctx, "R-1", {"core::cmp::PartialEq", "core::cmp::Eq"})
     for k, (field, kind) in sorted(CLAIMS.items()):
         effs = by_label.get(str(k), [])
         ok = False
